@@ -1919,9 +1919,34 @@ class QueryRewriter:
         # Extract FROM table for inference
         self.inferred_table = self._extract_from_table(parsed)
 
+        # Clauses the semantic layer cannot express must not be dropped silently
+        if parsed.args.get("qualify"):
+            raise ValueError("QUALIFY is not supported in semantic layer queries")
+        for clause in ("limit", "offset"):
+            node = parsed.args.get(clause)
+            if node is not None and not isinstance(getattr(node, "expression", None), exp.Literal):
+                raise ValueError(f"{clause.upper()} must be an integer literal")
+
         # Extract components
         metrics, dimensions, aliases = self._extract_metrics_and_dimensions(parsed)
         filters = self._extract_filters(parsed)
+        # HAVING conditions are filters on metric values, which the generator applies after aggregation
+        having = parsed.args.get("having")
+        if having is not None:
+            filters = filters + self._extract_filters(exp.Select().where(having.this))
+        # Grouping is implied by the selected dimensions; an explicit GROUP BY may only repeat them
+        group = parsed.args.get("group")
+        if group is not None:
+            selected = {d.split(".", 1)[1] for d in dimensions} | set(aliases.values())
+            for position, g_expr in enumerate(group.expressions):
+                if isinstance(g_expr, exp.Literal) and g_expr.is_int and 1 <= int(g_expr.this) <= len(parsed.expressions):
+                    continue
+                if isinstance(g_expr, exp.Column) and g_expr.name in selected:
+                    continue
+                raise ValueError(
+                    f"GROUP BY {g_expr.sql(dialect=self.dialect)} is not a selected dimension. "
+                    "Grouping is automatic: select the dimension to group by it."
+                )
         order_by = self._extract_order_by(parsed)
         limit = self._extract_limit(parsed)
         offset = self._extract_offset(parsed)
